@@ -74,6 +74,8 @@ def affine_sub(chk, rng, aff, rows, wid, tname, fixed=None, extra=None,
     for op in OPS:
         steps.append({"k": op, "e": OP(op, V("q"), V("o"))})
     steps.append({"k": "eqr", "e": OP("==", V("q"), V("r"))})
+    steps.append({"k": "add", "e": OP("+", V("q"), V("o"))})
+    steps.append({"k": "sub", "e": OP("-", V("q"), V("o"))})
     info = dict(world=wid, u=u, v=v, t=t, x=str(x), y=str(y))
     if extra:
         info.update(extra)
@@ -148,6 +150,22 @@ def affine_sub(chk, rng, aff, rows, wid, tname, fixed=None, extra=None,
             au, bu = aff[u]
             lhs, rhs = au * xs + bu, av * y + bv
             o = obs.get("o", {})
+            if o.get("k") == "Q":
+                # a sum / difference converts the right operand into the
+                # left operand's unit
+                oc = conv_model(aff, rows, v, u, val(o))
+                for key, sgn in (("add", 1), ("sub", -1)):
+                    rr = obs.get(key, {})
+                    if oc is None:
+                        if not is_exc(rr, "UnitConversionError"):
+                            bad.append("%s without applicable row gives %s" %
+                                       (key, brief(rr)))
+                    elif rr.get("k") != "Q" or rr["u"] != u or \
+                            val(rr) != xs + sgn * oc:
+                        bad.append("%s %s %s %s %s gives %s, expected %s %s"
+                                   % (xs, u, "+" if sgn > 0 else "-",
+                                      val(o), v, brief(rr), xs + sgn * oc, u))
+                chk.count("sums and differences across units")
             if o.get("k") == "Q" and consistent:
                 rhs = av * val(o) + bv
                 for op in OPS:
@@ -239,6 +257,7 @@ def run(chk, R, tier, seed):
     for c in ("reverse-lookup conversions", "forward conversions",
               "missing pairs", "table form|mapping", "table form|list",
               "fixed points", "triples", "comparisons across units",
+              "sums and differences across units",
               "conversions with both directions tabulated inconsistently "
               "(forward row must win)",
               "worlds"):
